@@ -629,3 +629,9 @@ def wf_dialog_bundle(d):
             and is_list(dget(d, 'retrieved', []))
             and forall(i, 0 <= i < len(as_list(dget(d, 'retrieved', []))), is_dict(as_list(dget(d, 'retrieved', []))[i])
                        and is_number(dget(as_list(dget(d, 'retrieved', []))[i], 'score', 0.0))))
+
+
+@spec
+def sched_budgets_of(cfg):
+    """the Dyn mapping scheduler.budgets of a plain config dict ({} when the subtree is missing or falsy)"""
+    return ite(dyn_truthy(dget(dget(cfg, 'scheduler', {}), 'budgets', {})), dget(dget(cfg, 'scheduler', {}), 'budgets', {}), dyn({}))
